@@ -1,7 +1,8 @@
 (** * C09 — Straight runs become one line: no two output lines are collinear and touching.
-    Statements only; proofs in Theory/MergeTheory.v and Theory/LineMergeTheory.v. *)
+    Statements only; proofs in Theory/MergeTheory.v, Theory/LineMergeTheory.v and Theory/RunSweep.v. *)
 Require Import SB.Model.Base SB.Model.Geom SB.Model.Fragment SB.Model.Merge SB.Model.FragBuf
-  SB.Theory.MergeTheory SB.Theory.LineMergeTheory.
+  SB.Theory.MergeTheory SB.Theory.LineMergeTheory SB.Model.Endorse SB.Theory.ShiftTheory SB.Theory.ShiftFrag
+  SB.Theory.SepTheory SB.Theory.SepOrder SB.Theory.RunSweep.
 
 (** Among the merged fragments of a span (the fixpoint of the merge loop) no line can merge
     with a later line: they are never both touching and collinear.  For every span and every
@@ -49,9 +50,28 @@ Proof.
   unfold mk_line. destruct (is_lt _); reflexivity.
 Qed.
 
-(** The statement about whole drawings (runs of line characters through the tables, lines of
-    different spans) is decided by the correspondence and the oracle of this check; the
-    theorems above are its algorithmic core. *)
+(** From the characters: a straight run of 1..40 cells of - _ ~ = | : ! \ / or the box-drawing
+    bars (':' and '!' from 2 cells on), through the whole recognition of the model, is exactly
+    one line spanning the run (two parallel ones for '='), dashed for ~ : !, and nothing else;
+    finite sweep over the regenerated tables, the bound is in the statement. *)
+Theorem C09_runs_from_characters :
+  forall k L, In k kinds -> (rmin k <= L <= 40)%nat ->
+    exists acc, endorse_cells (run_cells k L) = Ok (acc, []) /\ map fs_frag acc = run_lines k L.
+Proof. exact run_recognised. Qed.
+Check C09_runs_from_characters :
+  forall k L, In k kinds -> (rmin k <= L <= 40)%nat ->
+    exists acc, endorse_cells (run_cells k L) = Ok (acc, []) /\ map fs_frag acc = run_lines k L.
+(** ... anywhere, next to anything that does not touch the run *)
+Theorem C09_runs_anywhere_in_context :
+  forall k L (dx dy : Z) (inA : cell -> bool) cells acc groups,
+    In k kinds -> (rmin k <= L <= 40)%nat ->
+    separated inA cells -> filter (fun e => inA (fst e)) cells = map (shift_cc dx dy) (run_cells k L) ->
+    endorse_cells cells = Ok (acc, groups) ->
+    map fs_frag (filter (fsside inA) acc) = map (shift_frag dx dy) (run_lines k L) /\ filter (cside inA) groups = [].
+Proof. exact run_recognised_in_context. Qed.
+
+(** Longer runs through the tables and lines of different groups of cells are decided by the
+    correspondence and the oracle of this check. *)
 Example C09_nonvacuous :
   merge_recursive fragment_merge (map FLine (segs_from (P 0 40) 40 0 false 0 5)) = Ok [FLine (Line (P 0 40) (P 200 40) false)].
 Proof. vm_compute. reflexivity. Qed.
